@@ -46,6 +46,13 @@ def run(prog, R, tier="quick", only_rule=None):
     # of every entry it pops)
     from rules.props import c04
     c04.c04g(prog, R, rid="C20.i")
+    # every blob file a table of the new version points into is named by that version (with_merge applies new / dropped blob
+    # files under complete guards)
+    from rules.props import c08
+    rj = R.rule("C20.j", "with_merge applies the blob-file changes of a compaction whenever there are any", "K")
+    c08.with_merge_guards(prog, rj)
+    rj.floor(2)
+    c09.c09j(prog, R, rid="C20.k")
 
 
 def c20a(prog, R):
